@@ -19,7 +19,16 @@ func Copy(source, dest string) error {
 		}
 	}
 
-	out, err := os.Create(dest)
+	/* Whatever the destination already holds under that name is replaced,
+	 * not written through: a symbolic link there would send the bytes to a
+	 * file somewhere else, a name shared with another file (a hard link)
+	 * would change that file too. */
+	if destInfo, err := os.Lstat(dest); err == nil && !destInfo.IsDir() {
+		if err := os.Remove(dest); err != nil {
+			return err
+		}
+	}
+	out, err := os.OpenFile(dest, os.O_WRONLY|os.O_CREATE|os.O_EXCL, 0666)
 	if err != nil {
 		return err
 	}
